@@ -428,11 +428,53 @@ fn emit_enc(out: &mut impl std::io::Write, name: &str, v: Value) {
     let _ = writeln!(out, "{ev}");
 }
 
+/// One container of n fixed-width elements through the real encoder and decoder: what stands in front of the first
+/// element, the total length, whether decoding gives the value back and how much it consumes.
+macro_rules! emit_big {
+    ($out:expr, $name:expr, $n:expr, $width:expr, $ty:ty, $value:expr) => {{
+        let (n, width, value): (usize, usize, $ty) = ($n, $width, $value);
+        let r = std::panic::catch_unwind(|| {
+            let mut buf: Vec<u8> = Vec::new();
+            let ok = Encoder::from(&mut buf).encode(&value).is_ok();
+            if !ok {
+                return json!({"ev": "bigenc", "type": $name, "n": n, "width": width, "ok": false, "head": [], "total": 0, "same": false, "consumed": 0});
+            }
+            let head = buf.len().saturating_sub(n * width);
+            let mut longer = buf.clone();
+            longer.extend_from_slice(&[0xFF, 0x00]);
+            let mut dec = Decoder::from(longer.as_slice());
+            let back: Result<$ty, _> = dec.decode();
+            let consumed = longer.len() - dec.remaining();
+            json!({"ev": "bigenc", "type": $name, "n": n, "width": width, "ok": true, "head": buf[..head.min(12)].to_vec(), "total": buf.len(),
+                   "same": back.map(|b| b == value).unwrap_or(false), "consumed": consumed})
+        });
+        let ev = r.unwrap_or_else(|_| json!({"ev": "crash", "type": $name, "v": n}));
+        let _ = writeln!($out, "{ev}");
+    }};
+}
+
 pub fn record(n: u64) {
+    use std::io::Write;
     crate::supervisor::install_quiet_panic_hook();
     let mut rng = crate::util::Rng::new(crate::util::seed_from_env() ^ 0xC10);
     let out = std::io::stdout();
     let mut out = std::io::BufWriter::new(out.lock());
+    // containers at the steps of the size prefix (and one random size in between): the count is the point
+    let mut sizes: Vec<usize> = vec![31, 32, 63, 64, 8191, 8192, 8193, 16383, 16384, 16385, 65535, 65536];
+    sizes.push(8192 + rng.below(8192) as usize);
+    sizes.push(70_000 + rng.below(1 << 20) as usize);
+    for &k in &sizes {
+        emit_big!(out, "seq_u8", k, 1, Vec<u8>, (0..k).map(|i| i as u8).collect());
+        emit_big!(out, "seq_bool", k, 1, Vec<bool>, (0..k).map(|i| i % 3 == 0).collect());
+        emit_big!(out, "seq_i16", k, 2, Vec<i16>, (0..k).map(|i| i as i16).collect());
+        emit_big!(out, "seq_f64", k, 8, Vec<f64>, (0..k).map(|i| i as f64 * 0.5).collect());
+        emit_big!(out, "string", k, 1, String, (0..k).map(|i| (b'a' + (i % 26) as u8) as char).collect());
+        if k <= 65536 {
+            emit_big!(out, "dict_u16_u8", k, 3, BTreeMap<u16, u8>, (0..k).map(|i| (i as u16, i as u8)).collect());
+            emit_big!(out, "hdict_u16_u8", k, 3, HashMap<u16, u8>, (0..k).map(|i| (i as u16, i as u8)).collect());
+        }
+    }
+    let _ = out.flush();
     // strided sweep of the variable-width integers below 2^30 (both signs), stride derived from n
     let stride = ((1u64 << 30) / (n / 4).max(1)).max(1);
     let mut x = rng.below(stride);
